@@ -1558,10 +1558,6 @@ fn op_line(case: &mut Option<Case>, w: &[&str]) -> String {
                 if ty_of(&ch) == Some(Ty::En) {
                     return "bad-op".into();
                 }
-                if c.readers.iter().any(|r| r.imm) {
-                    // `Patch::patch` notifies while it holds the write lock: an ImmediateEffect would deadlock
-                    return "unsupported".into();
-                }
                 return do_write(c, &raw, &ch, Do::Patch(&v), true, Some(&v), era);
             }
             let how = match *kind {
@@ -2099,7 +2095,7 @@ fn gen_history(r: &mut Rng, flavour: usize) -> GenCase {
     let mut removed: [Vec<u32>; 2] = [vec![], vec![]];
     let mut dirty = [false, false];
     let use_imm = r.chance(1, 4);
-    let use_patch = !use_imm && r.chance(1, 3);
+    let use_patch = r.chance(1, 3);
     let keyed = flavour == 1 || flavour == 2 || flavour == 4;
     let allow = |ch: &Chain| -> bool {
         let has_list = ch.first() == Some(&Acc::Fld(3));
@@ -2368,7 +2364,7 @@ fn gen_option_cycle(r: &mut Rng) -> GenCase {
             nv = mutate(ty_of(&at).unwrap(), &nv, r);
         }
         lset(&mut nv, &base[level..], new_opt);
-        let patch = !use_imm && r.chance(1, 2);
+        let patch = r.chance(1, 2);
         if patch {
             g.lines.push(format!("patch {} {}", show_chain(&at), show(&nv)));
             g.tag("patch");
@@ -2591,7 +2587,7 @@ fn gen_handles(r: &mut Rng) -> GenCase {
                 if w.starts_with('h') {
                     g.tag("write-through-handle")
                 }
-                if !use_imm && t != Ty::En && r.chance(1, 3) {
+                if t != Ty::En && r.chance(1, 3) {
                     g.lines.push(format!("patch {w} {}", show(&nv)));
                     g.tag("patch");
                 } else {
